@@ -414,7 +414,7 @@ static void gen_c10(Gen &g) {
         }
     }
     // ---- grammar-directed random format strings (1..3 fields, literals between, 0..4 arguments of every type)
-    long nrand = thorough ? 600000 : 60000;
+    long nrand = thorough ? 1500000 : 60000;
     for (long r = SL; r < nrand; r += NS) random_case(g, 1000000 + (uint64_t)r, true);
     // ---- every prefix of valid format strings (cut at every position)
     const std::vector<std::pair<std::string, std::vector<std::string>>> valid = {
@@ -579,7 +579,7 @@ static void gen_c11(Gen &g) {
                                     g.put(route, m, build_field(f, order), false, {a});
                                 }
     // ---- 1..3 fields in all orders with 1..3 arguments, sequential and referenced mixed, literals and escapes between
-    long nmulti = thorough ? 400000 : 40000;
+    long nmulti = thorough ? 1200000 : 40000;
     for (long r = SL; r < nmulti; r += NS) {
         Rng rng(g.opt.seed * 0x9E3779B97F4A7C15ULL + (uint64_t)r * 2654435761ULL + 99);
         int nargs = 1 + (int)rng.below(3);
